@@ -745,7 +745,20 @@ fn exec_c11(t: &C11Trace, out: &mut Outcome<C11Trace>) {
         }
     };
     let stream = Rc::new(stream);
-    // measure the scratch each message needs: big scratch, the trace's schedule, no fault
+    // measure the scratch each message needs: big scratch, the trace's schedule without its
+    // Interrupted steps (fatal on embedded-io, and the required scratch does not depend on them),
+    // no fault
+    let calm: Vec<RStep> = t.rscript.iter().copied().filter(|s| *s != RStep::Interrupted).collect();
+    let measure = RCfg {
+        adapter: t.adapter,
+        borrowed: t.borrowed,
+        msgs: &t.msgs,
+        stream: &stream,
+        refs: &refs,
+        script: &calm,
+        fault: None,
+        need: None,
+    };
     let base = RCfg {
         adapter: t.adapter,
         borrowed: t.borrowed,
@@ -757,12 +770,12 @@ fn exec_c11(t: &C11Trace, out: &mut Outcome<C11Trace>) {
         need: None,
     };
     crate::supervisor::set_ctx([3, 0, 0, BIG as u64]);
-    let (measured, _) = arena::with_arena(|a| a.with_buf(BIG, t.place, |buf| read_chain(&base, buf, out), |_| None));
+    let (measured, _) = arena::with_arena(|a| a.with_buf(BIG, t.place, |buf| read_chain(&measure, buf, out), |_| None));
     let measured = match measured {
         Ok(m) => m,
         Err(fl) => report!(
             fl,
-            Some(C11Trace { enumerate: false, rfault: None, scratch: Scratch::Big, ..t.clone() })
+            Some(C11Trace { enumerate: false, rfault: None, scratch: Scratch::Big, rscript: calm.clone(), ..t.clone() })
         ),
     };
     let all_ok = refs.iter().all(|r| r.val.is_some());
@@ -903,7 +916,7 @@ fn exec_c11(t: &C11Trace, out: &mut Outcome<C11Trace>) {
 
 // ---- generation --------------------------------------------------------------------------------------
 
-fn gen_wscript(rng: &mut Rng, std: bool) -> Vec<WStep> {
+fn gen_wscript(rng: &mut Rng, std: bool, intr_eio: bool) -> Vec<WStep> {
     let mut v = Vec::new();
     match rng.below(6) {
         0 => {}
@@ -916,7 +929,7 @@ fn gen_wscript(rng: &mut Rng, std: bool) -> Vec<WStep> {
         _ => {
             for _ in 0..rng.range(1, 8) {
                 v.push(match rng.below(10) {
-                    0 | 1 if std => WStep::Interrupted,
+                    0 | 1 if std || intr_eio => WStep::Interrupted,
                     2 => WStep::Accept(usize::MAX),
                     3 => WStep::Accept(rng.range(1, 300)),
                     _ => WStep::Accept(rng.range(1, 5)),
@@ -931,7 +944,7 @@ fn gen_wscript(rng: &mut Rng, std: bool) -> Vec<WStep> {
     v
 }
 
-fn gen_rscript(rng: &mut Rng, std: bool) -> Vec<RStep> {
+fn gen_rscript(rng: &mut Rng, std: bool, intr_eio: bool) -> Vec<RStep> {
     let mut v = Vec::new();
     match rng.below(6) {
         0 => {}
@@ -944,7 +957,7 @@ fn gen_rscript(rng: &mut Rng, std: bool) -> Vec<RStep> {
         _ => {
             for _ in 0..rng.range(1, 8) {
                 v.push(match rng.below(10) {
-                    0 | 1 if std => RStep::Interrupted,
+                    0 | 1 if std || intr_eio => RStep::Interrupted,
                     2 => RStep::Deliver(usize::MAX),
                     3 => RStep::Deliver(rng.range(1, 300)),
                     _ => RStep::Deliver(rng.range(1, 5)),
@@ -978,6 +991,8 @@ impl Scenario for C11 {
     fn gen(rng: &mut Rng, _tier: Tier, run: u64) -> C11Trace {
         let adapter = if rng.chance(1, 2) { Adapter::Std } else { Adapter::Eio };
         let std = adapter == Adapter::Std;
+        // embedded-io 0.6 devices may fail with ErrorKind::Interrupted (fatal there, but legal)
+        let intr_eio = !std && cfg!(feature = "eio06") && rng.chance(1, 3);
         let nmsgs = match rng.below(8) {
             0..=3 => 1,
             4 | 5 => 2,
@@ -1056,11 +1071,11 @@ impl Scenario for C11 {
             } else {
                 None
             },
-            wscript: gen_wscript(rng, std),
+            wscript: gen_wscript(rng, std, intr_eio),
             buffering: rng.chance(1, 3),
             flush_err: rng.chance(1, 12),
             wfault,
-            rscript: gen_rscript(rng, std),
+            rscript: gen_rscript(rng, std, intr_eio),
             rfault,
             scratch: match rng.below(5) {
                 0 | 1 => Scratch::Big,
